@@ -29,7 +29,14 @@ func c04Colls() []c04Coll {
 	}
 }
 
+var c04PlainItems = map[string]bool{"any3": true, "any1": true, "any0": true, "nilslice": true, "nilints": true, "ints": true, "strings": true, "array": true, "nil": true, "missing": true, "int": true, "uint8s": true}
+
 var c04Re = regexp.MustCompile(`\[\[(.*?)\]\]`)
+
+// files besides the page that some loop forms need
+var c04Extra = map[string]string{
+	"card.vuego": `<b>[[I:{{ i }}|{{ x }}|{{ outer }}]]</b>`,
+}
 
 type c04Form struct {
 	name string
@@ -41,11 +48,31 @@ type c04Form struct {
 func c04Forms() []c04Form {
 	return []c04Form{
 		{"item", func(v string) string { return `<li v-for="` + v + ` in xs">[[I:|{{ ` + v + ` }}|{{ outer }}]]</li>` }, false},
-		{"index-item", func(v string) string { return `<li v-for="(i, ` + v + `) in xs">[[I:{{ i }}|{{ ` + v + ` }}|{{ outer }}]]</li>` }, true},
-		{"template", func(v string) string { return `<template v-for="(i, ` + v + `) in xs"><b>[[I:{{ i }}|{{ ` + v + ` }}|{{ outer }}]]</b></template>` }, true},
-		{"with-vif-true", func(v string) string { return `<li v-for="(i, ` + v + `) in xs" v-if="yes">[[I:{{ i }}|{{ ` + v + ` }}|{{ outer }}]]</li>` }, true},
-		{"with-binding", func(v string) string { return `<li v-for="(i, ` + v + `) in xs" :data-x="` + v + `" :class="{c: i}">[[I:{{ i }}|{{ ` + v + ` }}|{{ outer }}]]</li>` }, true},
-		{"child-reads", func(v string) string { return `<ul v-for="(i, ` + v + `) in xs"><li><em>[[I:{{ i }}|{{ ` + v + ` }}|{{ outer }}]]</em></li></ul>` }, true},
+		{"index-item", func(v string) string {
+			return `<li v-for="(i, ` + v + `) in xs">[[I:{{ i }}|{{ ` + v + ` }}|{{ outer }}]]</li>`
+		}, true},
+		{"template", func(v string) string {
+			return `<template v-for="(i, ` + v + `) in xs"><b>[[I:{{ i }}|{{ ` + v + ` }}|{{ outer }}]]</b></template>`
+		}, true},
+		{"with-vif-true", func(v string) string {
+			return `<li v-for="(i, ` + v + `) in xs" v-if="yes">[[I:{{ i }}|{{ ` + v + ` }}|{{ outer }}]]</li>`
+		}, true},
+		{"with-binding", func(v string) string {
+			return `<li v-for="(i, ` + v + `) in xs" :data-x="` + v + `" :class="{c: i}">[[I:{{ i }}|{{ ` + v + ` }}|{{ outer }}]]</li>`
+		}, true},
+		{"child-reads", func(v string) string {
+			return `<ul v-for="(i, ` + v + `) in xs"><li><em>[[I:{{ i }}|{{ ` + v + ` }}|{{ outer }}]]</em></li></ul>`
+		}, true},
+		// the looped element is, or contains, a <template> that is evaluated in place (include with per-item props, v-html of the item)
+		{"include-bound", func(v string) string {
+			return `<template v-for="(i, ` + v + `) in xs" include="card.vuego" :x="` + v + `" :i="i"></template>`
+		}, true},
+		{"include-nested", func(v string) string {
+			return `<div v-for="(i, ` + v + `) in xs"><template include="card.vuego" :x="` + v + `" :i="i"></template></div>`
+		}, true},
+		{"template-vhtml", func(v string) string {
+			return `<div v-for="(i, ` + v + `) in xs">[[I:{{ i }}|<template v-html="` + v + `"></template>|{{ outer }}]]</div>`
+		}, true},
 		{"expr-context", func(v string) string {
 			return `<li v-for="(i, ` + v + `) in xs"><em v-if="` + v + ` == ` + v + `">[[I:{{ i }}|{{ ` + v + ` }}|{{ outer }}]]</em></li>`
 		}, true},
@@ -75,10 +102,14 @@ func c04Eval(coll c04Coll, form c04Form, varName string, withElse bool, rootKind
 		}
 		data = rootT{Xs: m["xs"], Name: outerVal, Outer: "O", Yes: true, Item: outerVal}
 	}
-	res := renderPage(map[string]string{"p.vuego": tpl}, "p.vuego", data)
+	files := map[string]string{"p.vuego": tpl}
+	for n, src := range c04Extra {
+		files[n] = src
+	}
+	res := renderPage(files, "p.vuego", data)
 	// not sent to the model: map iteration order (maps), and interface-typed struct fields holding structs (the Val encoding has no static field type)
 	if coll.name != "maps" && coll.name != "structs" && coll.name != "floats" && !(coll.name == "struct" && rootKind == "struct") {
-		pendingPages = append(pendingPages, pageCase("loop", map[string]string{"p.vuego": tpl}, nil, "p.vuego", data, "form:"+form.name))
+		pendingPages = append(pendingPages, pageCase("loop", files, nil, "p.vuego", data, "form:"+form.name))
 	}
 	c := &Case{Name: fmt.Sprintf("%s over %s var %s else=%v root=%s", form.name, coll.name, varName, withElse, rootKind),
 		Input: map[string]any{"coll": coll.name, "form": form.name, "var": varName, "else": withElse, "root": rootKind, "tpl": tpl}, Impl: res.canon(), Oracle: &Verdict{OK: true},
@@ -109,7 +140,11 @@ func c04Eval(coll c04Coll, form c04Form, varName string, withElse bool, rootKind
 	want = append(want, "after:"+before)
 	var got []string
 	for _, mm := range c04Re.FindAllStringSubmatch(res.Out, -1) {
-		got = append(got, mm[1])
+		g := mm[1]
+		if form.name == "template-vhtml" {
+			g = strings.Join(strings.Fields(g), "") // the serialiser lays the <template v-html> content out on its own line: white space around it is not the loop's doing
+		}
+		got = append(got, g)
 	}
 	if strings.Join(got, ",") != strings.Join(want, ",") {
 		cls := "loop-markers"
@@ -139,13 +174,16 @@ func runC04(r *Run, replay *Case) {
 		return
 	}
 	r.Res.Rule = "every Go sequence type (slices of any/int/string/float/bool/struct/map/slice, arrays, nil and empty slices) and every non-sequence (nil, missing, int, string, struct, bool) x " +
-		"7 loop forms (item, (i,v), <template>, with v-if, with bindings, child reads, expression context) x loop variable names that do / do not shadow outer variables and root struct fields x followed or not by v-else x map / struct root; " +
+		"10 loop forms (item, (i,v), <template>, with v-if, with bindings, child reads, expression context, looped include with per-item props, include nested in the looped element, <template v-html> of the item) x loop variable names that do / do not shadow outer variables and root struct fields x followed or not by v-else x map / struct root; " +
 		"nests of depth 2; non-trivial = the collection is a sequence; exhaustive over the catalogue"
 	for _, cl := range colls {
 		for _, f := range forms {
 			for _, v := range []string{"x", "item", "name"} {
 				for _, e := range []bool{false, true} {
 					for _, root := range []string{"map", "struct"} {
+						if (f.name == "include-bound" || f.name == "include-nested" || f.name == "template-vhtml") && !c04PlainItems[cl.name] {
+							continue // these forms print the item through a prop / v-html: only collections whose items print alike everywhere
+						}
 						c := c04Eval(cl, f, v, e, root)
 						if cl.strs == nil {
 							c.Key = ""
